@@ -29,12 +29,11 @@ try:
         results[p] = {"rc": c.returncode, "lines": [l[:300] for l in lines[:6]]}
     # all properties quick scan for collateral detection
     allp = {}
-    for i in range(1, 21):
-        p = "C%02d" % i
-        if p in results: continue
-        c = sh("cd /verif && /venv/bin/python -m bacverif check %s --no-evidence" % p)
-        if c.returncode == 1:
-            allp[p] = [l[:200] for l in c.stdout.split("\n") if l.startswith("FINDING")][:3]
+    c = sh("cd /verif && /venv/bin/python -m bacverif checkall")          # one process for the other nineteen
+    for line in c.stdout.split("\n"):
+        parts = line.split(" ", 2)
+        if len(parts) >= 2 and parts[1] == "rc=1" and parts[0] not in results:
+            allp[parts[0]] = [parts[2][:300] if len(parts) > 2 else ""]
 finally:
     sh("git -C /repo checkout -- .")
 print("seed", src, "property", pid, "| demo clean rc", clean_rc, "patched rc", patched_rc, "| suite:", suite)
